@@ -1680,14 +1680,34 @@ class Tracer:
         is_range = (isinstance(it, ast.Call) and _dotted(it.func) == 'range' and len(it.args) == 1
                     and not it.keywords)
         if is_range and len(st.body) == 1:
-            dc = self.deref_call(st.body[0])                                   # shape A
+            inner = st.body[0]
+            guard = None
+            if (isinstance(inner, ast.If) and not inner.orelse and len(inner.body) == 1
+                    and isinstance(inner.test, ast.Compare) and len(inner.test.ops) == 1
+                    and isinstance(inner.test.ops[0], ast.IsNot)
+                    and isinstance(inner.test.comparators[0], ast.Name)
+                    and inner.test.comparators[0].id == 'NULL'):
+                # shape A': `for i in range(n): if c[i] is not NULL: Deref(mgr, c[i])`
+                guard = inner.test.left
+                inner = inner.body[0]
+            dc = self.deref_call(inner)                                        # shape A
             if dc is not None:
                 a = self.uncast(dc[1])
                 if (isinstance(a, ast.Subscript) and isinstance(a.value, ast.Name)
-                        and isinstance(a.slice, ast.Name) and a.slice.id == i):
+                        and isinstance(a.slice, ast.Name) and a.slice.id == i
+                        and (guard is None or ast.dump(guard) == ast.dump(a))):
                     v = self.ev(a.value, p)
                     if self.is_cont(v) and self.holds_nodes(v):
-                        return ('derefAll', self.as_cont(v, p), dc[0], _src(it.args[0]))
+                        return ('derefAll' if guard is None else 'derefNonNull',
+                                self.as_cont(v, p), dc[0], _src(it.args[0]))
+            # shape N: `for i in range(n): c[i] = NULL` -- every slot of the array is initialised
+            s0 = st.body[0]
+            if (isinstance(s0, ast.Assign) and len(s0.targets) == 1 and isinstance(s0.targets[0], ast.Subscript)
+                    and isinstance(s0.targets[0].value, ast.Name) and isinstance(s0.targets[0].slice, ast.Name)
+                    and s0.targets[0].slice.id == i and isinstance(s0.value, ast.Name) and s0.value.id == 'NULL'):
+                v = self.ev(s0.targets[0].value, p)
+                if self.is_cont(v) and self.holds_nodes(v) and not self.is_python_cont(v):
+                    return ('nullInit', self.as_cont(v, p), _src(it.args[0]))
             return None
         if (isinstance(it, ast.Call) and isinstance(it.func, ast.Attribute) and it.func.attr == 'values'
                 and isinstance(it.func.value, ast.Name) and not it.args and len(st.body) == 1):
@@ -2262,7 +2282,7 @@ def role_of(f):
 
 
 RELEVANT = ('produce', 'ref', 'deref', 'wrap', 'initCall', 'retNode', 'store', 'load', 'derefAll',
-            'setField')
+            'derefNonNull', 'setField')
 
 
 def declared_c_functions(lls):
@@ -2586,8 +2606,10 @@ def lean_event(ev):
         return f'.{k} {ev[1]} {_ls(ev[2])}'
     if k in ('store', 'load'):
         return f'.{k} {ev[1]} {ev[2]}'
-    if k == 'derefAll':
-        return f'.derefAll {ev[1]} {_ls(ev[2])} {_ls(ev[3])}'
+    if k in ('derefAll', 'derefNonNull'):
+        return f'.{k} {ev[1]} {_ls(ev[2])} {_ls(ev[3])}'
+    if k == 'nullInit':
+        return f'.nullInit {ev[1]} {_ls(ev[2])}'
     if k == 'refNonPos':
         return f'.refNonPos {ev[1]}'
     if k == 'setField':
